@@ -11,7 +11,7 @@ import itertools
 import json
 
 from mon import refbufr as R
-from mon import handover
+from mon import handover, midscan
 from mon.compare import close, diff_message, impl_subset, td_of, jsonable, opsig
 from mon.gen import cases
 from mon.gen import failures
@@ -24,6 +24,8 @@ RULE = ('exhaustive: all columns of n<=4 subsets over {missing,0..2^w-2} for w<=
         'difference widths minimal..minimal+3 and 63; random: wide columns, character columns, full templates '
         'both ways; non-trivial = the column is not all-equal; distinct by (kind,w,n,column)/message hash')
 RULE += '; added with rounds 10-12: object histories with one long-lived encoder given the same object again; twins'
+RULE += ('; mid-scan scenarios (mon/midscan.py): compressed and uncompressed forms of the same data delivered by scans / decodes in '
+         'flight together on one decoder, each held against the snapshot of its other layout')
 ASSUMPTIONS = ['all-ones == missing across an encode (2.6); strings compared space-padded (2.7)',
                'compressed character columns with non-zero base and non-zero width are not generated']
 BUDGET = {'quick': 50, 'thorough': 600}
@@ -31,7 +33,7 @@ EXHAUSTIVE = {'quick': True, 'thorough': True}
 EXHAUSTIVE_NOTE = {'quick': 'all 5 050 columns (w<=3, n<=4) x {numeric, code/flag} through Encoder->Decoder and R reader',
                    'thorough': 'all 74 954 columns (w<=4, n<=4) x {numeric, code/flag}, plus R-written width variants'}
 REQUIRED = {'quick': {'columns_enc_dec': 10100, 'columns_r_written': 10000, 'transparency_cases': 310, 'wide_columns': 400,
-                      'string_columns': 200, 'associated_width_cases': 36},
+                      'string_columns': 200, 'associated_width_cases': 36, 'mid_scan_results_judged': 600},
             'thorough': {'columns_enc_dec': 149908, 'columns_r_written': 140000, 'transparency_cases': 6200,
                       'wide_columns': 10000, 'string_columns': 5000, 'associated_width_cases': 36}}
 
@@ -236,6 +238,33 @@ def associated_widths(ctx, enc, dec):
                                     % (w1, w2, elem, 'compressed' if comp else 'uncompressed', jsonable(got), rows), spec)
 
 
+def compare_snaps(sc, su):
+    if len(sc) != len(su):
+        return ('nsubsets', None, None)
+    for i, ((lc, vc, kc), (lu, vu, ku)) in enumerate(zip(sc, su)):
+        if lc != lu:
+            return ('labels', i, None)
+        if kc != ku:
+            return ('links', i, None)
+        if len(vc) != len(vu):
+            return ('length', i, None)
+        for j, (a, bq) in enumerate(zip(vc, vu)):
+            if not same_value(a, bq, None):
+                return ('values', i, (j, lc[j], a, bq))
+    return None
+
+
+def judge_other_layout(kind, m, other, opts):
+    """C05's oracle for a message delivered / read in the middle of other work: the snapshot of the same data decoded from its
+    other layout (taken on a quiet decoder, where the two layouts agreed)"""
+    if kind != 'full':
+        return None
+    bad = compare_snaps(snapshot(m), other)
+    if bad:
+        return ('%s-differ-from-other-layout' % bad[0], 'decoded %s differ from the decode of the same data in its other layout: %r' % (bad[0], jsonable(bad)))
+    return None
+
+
 def transparency(ctx, enc, dec):
     if ctx.mine(0):
         associated_widths(ctx, enc, dec)
@@ -270,24 +299,22 @@ def transparency(ctx, enc, dec):
         ctx.evaluated(bc.hex(), msg.nsub > 1, sample=dict(part='c', ids=msg.ids, nsub=msg.nsub) if k == 1 else None)
         for op in msg.ops:
             ctx.add('operators', op)
-        bad = None
-        if len(sc) != len(su):
-            bad = ('nsubsets', None, None)
-        else:
-            for i, ((lc, vc, kc), (lu, vu, ku)) in enumerate(zip(sc, su)):
-                if lc != lu:
-                    bad = ('labels', i, None)
-                elif kc != ku:
-                    bad = ('links', i, None)
-                elif len(vc) != len(vu):
-                    bad = ('length', i, None)
-                else:
-                    for j, (a, bq) in enumerate(zip(vc, vu)):
-                        if not same_value(a, bq, None):
-                            bad = ('values', i, (j, lc[j], a, bq))
-                            break
-                if bad:
-                    break
+        bad = compare_snaps(sc, su)
+        if not bad and len(bc) < 3000 and len(bu) < 3000:
+            # "the same data both ways decode to the same result" is stated for the data, not for a quiet decoder: the compressed
+            # forms are scanned / decoded while scans and decodes of the uncompressed forms of the same data are in flight on
+            # the same decoder; each delivered message is held against the snapshot of its OTHER layout
+            recent = ctx.__dict__.setdefault('_c05_recent', [])
+            recent.append((bc, su, bu, sc))
+            if len(recent) >= 3:
+                ctx.count('mid_scan_blocks')
+                if ctx.counters['mid_scan_blocks'] % (3 if ctx.quick else 2) == 1:
+                    from pybufrkit.decoder import Decoder
+                    A, Bs = [(r[0], r[1]) for r in recent], [(r[2], r[3]) for r in recent]
+                    if ctx.rng.random() < 0.5:
+                        A, Bs = Bs, A
+                    midscan.scenarios(ctx, 'transparency', Decoder, A, Bs, judge_other_layout, dict(part='c', origin='mid-scan'))
+                del recent[:]
         if bad:
             ctx.violate('transparency/%s-differ' % bad[0],
                         'same data decodes differently when stored compressed vs uncompressed: %r' % (jsonable(bad),), spec)
